@@ -71,6 +71,10 @@ def std_variants(tier: str, noop: bool) -> List[Dict[str, Any]]:
     v.append(cv)
     # dds and the callee modules imported by statements inside the function bodies
     v.append(_v("local", "local", ["split"], "local", 0.12))
+    # a plain helper call written inside the argument expression of the following run-time-argument keep
+    iv = _v("local", "local", ["one", "split"], "from", 0.25)
+    iv["inline"] = True
+    v.append(iv)
     # tracked variables whose names shadow builtins (max, format, input, ...)
     bv = _v("local", "local+lru", ["one", "split"], "from", 0.2)
     bv["var_names"] = "builtin"
@@ -301,6 +305,8 @@ def run_family(prop: str, tier: str) -> int:
                 s2.real["var_names"] = v["var_names"]
             if prop != "C01":
                 s2.real["plain_refs"] = True
+            if v.get("inline"):
+                s2.real["inline_call_args"] = True
             byname[s.name] = s2
         items = [(byname[h["shape"]], h["hist"]) for h in hs]
         if vi == 0:
@@ -324,6 +330,8 @@ def run_family(prop: str, tier: str) -> int:
             realisation += ",notebook-cells"
         if v.get("script"):
             realisation += ",__main__-script"
+        if v.get("inline"):
+            realisation += ",helper-calls-inside-argument-expressions"
         if v.get("var_names"):
             realisation += ",variables-named-like-" + v["var_names"] + "s"
         if v.get("pristine"):
